@@ -286,8 +286,13 @@ def tlc_ok(r, what):
 
 def load_findings(prop):
     known, fixed = {}, []
-    p = os.path.join(VERIF, "known_findings.jsonl")
-    if os.path.exists(p):
+    paths = [os.path.join(VERIF, "known_findings.jsonl")]
+    d = os.path.join(VERIF, "known_findings.d")
+    if os.path.isdir(d):
+        paths += [os.path.join(d, f) for f in sorted(os.listdir(d)) if f.endswith(".jsonl")]
+    for p in paths:
+        if not os.path.exists(p):
+            continue
         for line in open(p):
             line = line.strip()
             if not line or line.startswith("#"):
@@ -457,3 +462,58 @@ def trace_reject_info(r, trace_path):
         info["stuck_at_line"] = i + 1
         info["context"] = lines[max(0, i - 6): i + 1]
     return info
+
+
+# ---------------------------------------------------------------- F binding (function I/O judged by a TLA+ contract)
+
+def fio_validate(chk, specdir, module, cfg, sd, io_path, name="contract", timeout=900, fname="io.ndjson", extra_files=None):
+    """Runs an X_Trace contract spec over a logged I/O file.  The spec must print, once, at its final state
+       PrintT(ToJson([n |-> Len(Log), bad |-> {[idx |-> i, key |-> Key(Log[i])] : failing i}]))
+    Returns (n, bad-list).  Anything else (TLC error, nothing printed) is NoVerdict."""
+    files = {fname: io_path}
+    files.update(extra_files or {})
+    r = tlc(specdir, module, cfg, sd, workers=1, files=files, timeout=timeout)
+    if r.error or r.violated or r.rc != 0:
+        raise NoVerdict("contract evaluation failed: %s %s\n%s" % (r.violated, r.error, r.stdout[-2500:]))
+    rep = [x for x in r.records if isinstance(x, dict) and "bad" in x and "n" in x]
+    if not rep:
+        raise NoVerdict("contract spec printed no report\n" + r.stdout[-1500:])
+    rep = rep[-1]
+    if name:
+        chk.add_tlc(r, name, count_states=False)
+    bad = rep["bad"] if isinstance(rep["bad"], list) else []
+    return int(rep["n"]), bad
+
+
+# ---------------------------------------------------------------- ego binary (interpreter-level checks)
+
+def build_ego(sd, overlay, race=False, tags="verif"):
+    out = os.path.join(sd, "ego-race" if race else "ego")
+    if not os.path.exists(out):
+        go_build(overlay, ".", out, tags=tags, race=race)
+    return out
+
+
+def ego_env(sd):
+    home = os.path.join(sd, "home")
+    os.makedirs(home, exist_ok=True)
+    e = dict(os.environ)
+    e.update(HOME=home, EGO_PATH=REPO, EGO_DEFAULT_LOGGING="", NO_COLOR="1")
+    e.pop("EGO_PROFILE", None)
+    return e
+
+
+def run_many(jobs, nproc=None, timeout=20):
+    """jobs: list of (argv, stdin-or-None, cwd-or-None, env).  Returns list of (rc, stdout, stderr) with rc=None on timeout."""
+    from concurrent.futures import ThreadPoolExecutor
+
+    def one(j):
+        argv, stdin, cwd, env = j
+        try:
+            p = subprocess.run(argv, input=stdin, cwd=cwd, env=env, timeout=timeout,
+                               stdout=subprocess.PIPE, stderr=subprocess.PIPE, text=True, errors="replace")
+            return (p.returncode, p.stdout, p.stderr)
+        except subprocess.TimeoutExpired as ex:
+            return (None, (ex.stdout or b"").decode("utf8", "replace") if isinstance(ex.stdout, bytes) else (ex.stdout or ""), "timeout")
+    with ThreadPoolExecutor(max_workers=nproc or NCPU) as ex:
+        return list(ex.map(one, jobs))
